@@ -5,6 +5,7 @@ import (
 	"encoding/json"
 	"encoding/xml"
 	"fmt"
+	"golang.org/x/net/html/charset"
 	"io"
 	"reflect"
 	"sort"
@@ -188,6 +189,7 @@ type xnode struct {
 // reports URIs only, so each of them is a faithful rendering).
 func xmlRefDOM(text string) (*xnode, error) {
 	d := xml.NewDecoder(strings.NewReader(text))
+	d.CharsetReader = charset.NewReaderLabel // the standard decoder honours the encoding the document declares
 	root := &xnode{Kind: "doc"}
 	stack := []*xnode{root}
 	type decl struct{ prefix, uri string }
@@ -373,6 +375,15 @@ func c08XML(args []string) int {
 		inner := gen(0)
 		docs = append(docs, `<root xmlns:p="urn:p" xmlns:q="urn:q">`+inner+`</root>`)
 	}
+	// size and encoding: non-ASCII data only after a long ASCII prefix (beyond any sniffing window), declared legacy
+	// encodings, a UTF-8 declaration with non-ASCII in the first bytes
+	for _, padLen := range []int{900, 1024, 1100, 4200, 70000} {
+		pad := strings.Repeat("<f>plain ascii filler</f>", padLen/25+1)
+		docs = append(docs, `<root>`+pad+`<t k="Zoë €">naïve 世界 🙂</t></root>`)
+		docs = append(docs, `<?xml version="1.0" encoding="UTF-8"?><root><t>é first</t>`+pad+`<t k="ü">später</t></root>`)
+	}
+	docs = append(docs, "<?xml version=\"1.0\" encoding=\"ISO-8859-1\"?><root><t k=\"\xe9\">caf\xe9 \xfc\xdf</t></root>",
+		"<?xml version=\"1.0\" encoding=\"windows-1252\"?><root><t>\x80 \x99</t><u k=\"\x93q\x94\"/></root>")
 	nviol := 0
 	for _, text := range docs {
 		ref, err := xmlRefDOM(text)
